@@ -26,6 +26,7 @@ type c19Case struct {
 	store   map[string][]byte // overrides
 	remove  string
 	reverse bool // loader uses the reversed key order
+	wide    int  // > 0: the loader's comparator answers like a subtraction (-wide, 0, +wide), not -1/0/1
 	kind    string
 }
 
@@ -259,6 +260,9 @@ func c19Cases(cfg *world.Config, v *version) []*c19Case {
 		}
 		rec(0)
 		mk("order", "loader uses the reversed key order", func(c *c19Case) { c.reverse = true })
+		// RemoteConfig.KeyCompare documents no range: a comparator written as a subtraction answers with any magnitude
+		mk("order", "loader uses the reversed key order and answers -7 / 0 / +7", func(c *c19Case) { c.reverse, c.wide = true, 7 })
+		mk("order", "loader uses the reversed key order and answers -2 / 0 / +2", func(c *c19Case) { c.reverse, c.wide = true, 2 })
 	}
 	for h := 0; h <= int(base.Height)+3; h++ {
 		if h == int(base.Height) {
@@ -362,7 +366,14 @@ func c19Version(cfg *world.Config, v *version, acc *pairAcc, st *c19Stats) {
 		rc := v.w.RemoteConfig(stc, false)
 		if c.reverse {
 			base := mast.DefaultKeyCompare(json.Marshal)
-			rc.KeyCompare = func(a, b interface{}) (int, error) { return base(b, a) }
+			wide := c.wide
+			rc.KeyCompare = func(a, b interface{}) (int, error) {
+				r, err := base(b, a)
+				if wide > 0 {
+					r *= wide
+				}
+				return r, err
+			}
 		}
 		root := c.root
 		var t *mast.Mast
